@@ -87,6 +87,7 @@ func (cdb *CachedDatabase) CleanupExpiredCache() map[string]int {
 func (cdb *CachedDatabase) UpdateDatabase(commands []Command) {
 	cdb.Database.Commands = commands
 	cdb.Database.BuildUniversalIndex() // Rebuild universal index
+	cdb.Database.buildTFIDFSearcher()  // ... and the TF-IDF re-ranker with its pointer map
 	cdb.InvalidateCache()              // Invalidate cache when database is updated
 }
 
